@@ -124,6 +124,7 @@ func cmdCheck(args []string) int {
 		writeEvidence(evPath, prop, *tier, seed, nil, nil, 0, 0, violations, time.Since(t0).Seconds(), nil, nil, nil, 0, 0)
 		return 1
 	}
+	w.curProp = prop
 	known := loadKnown(*verifDir)
 	var frs []*FuncResult
 	for _, k := range w.conOrder {
